@@ -78,6 +78,7 @@ type PathResult struct {
 	Sample       string
 	SchedChoices int
 	TimersFired  int
+	Races        []string
 }
 
 type Run struct {
@@ -133,6 +134,7 @@ type Run struct {
 	pbMsgs   []Value
 	makeSites map[string]map[int]*Term
 	preempts int
+	race     raceState
 	maxPreempt int
 	zeroCache map[types.Type]Value
 }
